@@ -61,6 +61,7 @@ struct Peer {
 	bool lazy = false; int F = 100;
 	std::deque<Bytes> up_queue; Bytes up_z; size_t up_off = 0; int up_frag = 0; bool up_active = false;
 	int up_next_to = -1; size_t up_force_first = 0;
+	int merge_stage = 0; Bytes merge_next; std::vector<Bytes> up_abandoned;   // C01 merge game (see do_up)
 	Bytes up_cur_pkt; int up_cur_to = -1;   // peer index the current upstream packet is addressed to (client-to-client), -1 the server
 	std::vector<Bytes> up_completed;
 	size_t absorbed = 0;
@@ -92,7 +93,7 @@ struct Run {
 	// statistics for the non-trivial rules
 	int n_redeliver = 0, n_red_cache = 0, n_red_qmem = 0, n_red_pending = 0, n_red_lastfrag = 0, n_red_case = 0, n_red_otheraddr = 0;
 	int n_multi3 = 0, n_nreq_ok = 0, n_badfrag = 0, n_dup_twice = 0, n_realsoon = 0, n_tun_via_held = 0, n_long = 0;
-	int n_cache_same = 0, n_trunc = 0, n_lost_answers = 0, n_giveup = 0, n_raw = 0, n_recycled = 0, n_recycled_data_before_n = 0, n_c2c = 0, n_red_altdomain = 0, n_qr = 0, n_hsreq = 0, n_wrap = 0;
+	int n_cache_same = 0, n_trunc = 0, n_lost_answers = 0, n_giveup = 0, n_raw = 0, n_recycled = 0, n_recycled_data_before_n = 0, n_c2c = 0, n_red_altdomain = 0, n_qr = 0, n_hsreq = 0, n_wrap = 0, n_merge = 0;
 	uint64_t n_data_emits = 0;
 	std::map<int, std::pair<int, Bytes>> c2c_on_delivery;   // last-fragment query record -> (receiving peer, packet): registered in the receiver's stream when the server reads that query
 	uint64_t t_last_sent = 0;    // when the harness last handed a query to the network
@@ -439,7 +440,7 @@ struct Engine {
 			p.up_z = refproto::zcompress(p.up_cur_pkt); p.up_off = 0; p.up_frag = 0; p.up_active = true;
 			p.up_force_first = 0;
 			bool wrap = false;
-			if (P.wrap_games && p.up_cur_to < 0 && !p.up_completed.empty() && t.chance(1, 4)) {
+			if (P.wrap_games && p.merge_stage != 2 && p.up_cur_to < 0 && !p.up_completed.empty() && t.chance(1, 4)) {
 				// Seven packets of this client were lost entirely (the server saw nothing of them), so this one carries the sequence
 				// number of the last packet the server completed.  Its content is crafted: incompressible (zlib stores it verbatim)
 				// with a complete zlib stream of ANOTHER packet exactly where its second fragment begins.
@@ -455,7 +456,31 @@ struct Engine {
 					Bytes zp = refproto::zcompress(Pk);
 					if (zp.size() == Pk.size() + 11 && !memcmp(zp.data() + 7, Pk.data(), Pk.size()) && zp.size() - F <= F) {
 						p.up_cur_pkt = Pk; p.up_z = zp; p.up_force_first = F; wrap = true; R.n_wrap++;
+						sim::W.run_for(28000000);   // seven packets, each sent once and repeated three times at 1 s intervals
 						note(fmt("peer%d: seven packets lost entirely; next packet (crafted, %zu bytes) re-uses sequence number %d", peer_index(p), Pk.size(), p.sc.up_seq));
+					}
+				}
+			}
+			// Merge game: the sender gives a packet up after its first fragment (the acknowledgements were lost), loses seven more packets
+			// entirely, and the packet that then re-uses the sequence number differs from the abandoned one in its first fragment only in a
+			// way Adler-32 cannot see (three consecutive bytes +1 -2 +1) and has a different tail.  A receiver that appends the new second
+			// fragment to the old first fragment gets past zlib's checksum with a packet nobody sent.
+			if (!wrap && P.wrap_games && p.merge_stage == 2) {
+				p.up_cur_pkt = p.merge_next; p.up_z = refproto::zcompress(p.up_cur_pkt); p.up_force_first = up_chunk_cap(p); p.up_cur_to = -1; p.merge_stage = 0; wrap = true; R.n_merge++;
+				sim::W.run_for(28000000);
+				note(fmt("peer%d: seven packets lost entirely; next packet (Adler-equivalent partner of the abandoned one, %zu bytes) re-uses sequence number %d", peer_index(p), p.up_cur_pkt.size(), p.sc.up_seq));
+			} else if (!wrap && P.wrap_games && p.merge_stage == 0 && p.up_cur_to < 0 && t.chance(1, 4)) {
+				size_t F = up_chunk_cap(p);
+				Bytes A(p.up_cur_pkt.begin(), p.up_cur_pkt.begin() + std::min<size_t>(24, p.up_cur_pkt.size()));
+				uint32_t x = (uint32_t)((R.n_merge + 7) * 2246822519u + 5) | 1;
+				while (A.size() + 7 < F) { x ^= x << 13; x ^= x >> 17; x ^= x << 5; A.push_back((uint8_t)(x >> 11)); }
+				if (A.size() + 7 == F && F >= 60) {
+					Bytes B = A; size_t k = 30; bool ok = false;
+					for (; k + 3 < B.size(); k++) if (B[k] < 255 && B[k + 1] >= 2 && B[k + 2] < 255) { B[k]++; B[k + 1] -= 2; B[k + 2]++; ok = true; break; }
+					for (int j = 0; j < 24; j++) { x ^= x << 13; x ^= x >> 17; x ^= x << 5; A.push_back((uint8_t)(x >> 11)); B.push_back((uint8_t)(x >> 19)); }
+					Bytes za = refproto::zcompress(A), zb = refproto::zcompress(B);
+					if (ok && za.size() == A.size() + 11 && zb.size() == B.size() + 11 && !memcmp(za.data() + 7, A.data(), A.size()) && !memcmp(zb.data() + 7, B.data(), B.size())) {
+						p.up_cur_pkt = A; p.up_z = za; p.up_force_first = F; p.merge_next = B; p.merge_stage = 1;
 					}
 				}
 			}
@@ -478,6 +503,19 @@ struct Engine {
 		note(fmt("peer%d data id=%u up=%d/%d last=%d %zuB ack=%d/%d", peer_index(p), id, p.sc.up_seq, p.up_frag, (int)last, n, p.sc.dn_seq, p.sc.dn_frag));
 		p.up_off += n; p.up_frag++;
 		if (last) { p.up_active = false; p.up_completed.push_back(p.up_cur_pkt); }
+		else if (p.merge_stage == 1) {
+			// the acknowledgement never arrives: repeat the fragment as the client does (new cache-miss counter, up to three times), then give the packet up
+			int rep = (int)t.below(4);
+			for (int r = 0; r < rep; r++) {
+				sim::W.run_for(1000000);
+				std::string again = refproto::name_data(p.sc.userid, p.sc.up_seq, 0, p.sc.dn_seq, p.sc.dn_frag, false, cm[p.sc.data_cmc], p.sc.up_codec, chunk, p.sc.domain);
+				p.sc.data_cmc = (p.sc.data_cmc + 1) % 36;
+				uint16_t id2 = p.sc.send_name(again);
+				record(p, id2, false, -1, p.sc.addr, again, refproto::qtype_of(p.sc.qtype_k));
+			}
+			p.up_active = false; p.up_abandoned.push_back(p.up_cur_pkt); p.merge_stage = 2;
+			note(fmt("peer%d: no acknowledgement for the first fragment (%d repeats); packet given up", peer_index(p), rep));
+		}
 	}
 
 	void do_offer(Peer &p)
